@@ -662,6 +662,9 @@ func init() {
 				ne := graphinv.RunNilEntry(c, "./graph/simple", "./graph/multi")
 				ne.Floor("method_calls_on_map_entries", 8)
 				res.Merge(ne)
+				dg := graphinv.RunDiag(c)
+				dg.Floor("matrix_stores_at_a_pair_of_node_ids", 2)
+				res.Merge(dg)
 				rl := graphinv.RunRelit(c, "./graph/simple", "./graph/multi")
 				rl.Floor("receiver_rebuilding_literals", 2)
 				res.Merge(rl)
@@ -903,6 +906,8 @@ func dump(argv []string) {
 		res = stride.RunStepBound(def, core.Pkgs(argv[1:]...))
 	case "nilentry":
 		res = graphinv.RunNilEntry(def, argv[1:]...)
+	case "graphdiag":
+		res = graphinv.RunDiag(def)
 	case "workquery":
 		res = flagx.RunWorkQuery(def, core.Pkgs(argv[1:]...))
 	case "betascale":
